@@ -24,7 +24,7 @@ def derived_pcr(gate, p2, pc, pt):
     """error of the CR pulses such that the whole sequence has the two-qubit error p2 (fidelities multiply)"""
     k = 3 if gate == "CNOT_inv" else 1
     x = (1 - 0.75 * p2) ** 2 / ((1 - 0.75 * pc) ** 2 * (1 - 0.75 * pt) ** k)
-    return (4 / 3) * (1 - x ** 0.25) if x >= 0 else float("nan")
+    return max(0.0, (4 / 3) * (1 - x ** 0.25)) if x >= 0 else float("nan")       # never negative: 0 where the derivation gives < 0
 
 
 def make_args(rng, mode="asym"):
